@@ -415,13 +415,16 @@ def generic_replay(prop, path):
         rc, lines, err = L.run_real(exe, d["argv"], dg)
         print("--- real listener (rc=%d)\n%s" % (rc, "\n".join(lines)))
         bad = rc != 0 or not lines or lines[-1] != "blocked"
-        if which != "crf" or "listener" in d["argv"]:
-            modeargs = {"u": "u" if "-u" in d["argv"] else "r", "f": "f" if "--fd" in d["argv"] else "c"}
+        if True:
+            modeargs = {"u": "u" if "-u" in d["argv"] else "r", "f": "f" if "--fd" in d["argv"] else "c",
+                        "o": "talker" if "talker" in d["argv"] else "listener"}
             per = L.model_outputs(which, modeargs, dg)
             exp_can, exp_out = L.expected_from_model(which, per)
             print("--- model\n%s" % per)
             if which == "can":
                 bad = bad or [l for l in lines if l.startswith("can")] != exp_can
+            elif which == "crf" and modeargs["o"] == "talker":
+                bad = bad or [l for l in lines if l.startswith("sent ")] != [l for p_ in per for l in p_ if l.startswith("sent ")]
             else:
                 bad = bad or b"".join(bytes.fromhex(l[7:].strip()) for l in lines if l.startswith("stdout ")) != exp_out
         if err.strip():
